@@ -385,7 +385,7 @@ def s_set_global_waste_to_doubled_prices : SetterInfo :=
       .write "WASTE_DISTRIBUTION/MILK" (.lit (.num 212 (-2))),
       .write "WASTE_DISTRIBUTION/SEAFOOD" (.lit (.num 17 (-2))),
       .write "WASTE_DISTRIBUTION/SEAWEED" (.lit (.num 17 (-2))),
-      .write "WASTE_RETAIL" (.lit (.num 16 0)),
+      .write "WASTE_RETAIL" (.lit (.num 106 (-1))),
       .setFlag "WASTE_SET"] }
 
 def s_set_global_waste_to_baseline_prices : SetterInfo :=
@@ -1054,7 +1054,7 @@ def slaughterColumns : List String := ["chicken_slaughter", "rabbit_slaughter", 
 /-- `animal` column of species_attributes.csv -/
 def speciesNames : List String := ["chicken", "rabbit", "duck", "goose", "turkey", "other_rodents", "pig", "meat_goat", "meat_sheep", "camelids", "meat_cattle", "meat_camel", "meat_buffalo", "mule", "horse", "asses", "milk_sheep", "milk_cattle", "milk_goat", "milk_camel", "milk_buffalo"]
 /-- `animal_populations.main`: `if loaderNeedle in key: table[key.<loaderFunction>(loaderArg)] = value` -/
-def loaderFunction : String := "removesuffix"
+def loaderFunction : String := "strip"
 def loaderNeedle : String := "_head_start"
 def loaderArg : String := "_start"
 
